@@ -143,15 +143,15 @@ Proof.
     + now apply IH.
 Qed.
 
-Lemma collect_sub l full :
-  (forall k v, In (k, v) l -> lookup k full = Some v) -> collect (map fst l) full = Some l.
+Lemma collect_sub l full dfl :
+  (forall k v, In (k, v) l -> lookup k full = Some v) -> collect (map fst l) full dfl = Some l.
 Proof.
   induction l as [|[k v] r IH]; cbn [map fst collect]; intros H; [reflexivity|].
-  rewrite (H k v (or_introl eq_refl)), IH; [reflexivity|].
+  rewrite (H k v (or_introl eq_refl)). cbn [first_jv]. rewrite IH; [reflexivity|].
   intros k' v' Hin. apply H. now right.
 Qed.
 
-Lemma collect_self vals : NoDup (map fst vals) -> collect (map fst vals) vals = Some vals.
+Lemma collect_self vals dfl : NoDup (map fst vals) -> collect (map fst vals) vals dfl = Some vals.
 Proof. intros ND. apply collect_sub. intros k v. now apply lookup_in. Qed.
 
 Lemma mem_str_In k l : mem_str k l = true <-> In k l.
@@ -172,7 +172,7 @@ Lemma scan_fields c m wl rest extra vals :
 Proof.
   induction vals as [|[k v] r IH]; intros acc Hf ND; cbn [app].
   - now rewrite app_nil_r.
-  - cbn [scan_v0]. rewrite (Hf (k, v) (or_introl eq_refl)).
+  - cbn [scan_v0]. pose proof (Hf (k, v) (or_introl eq_refl)) as Hkf. cbn [fst] in Hkf. rewrite Hkf.
     assert (Fresh : ~ In k (map fst acc)).
     { rewrite map_app in ND. cbn [map fst] in ND. apply NoDup_remove_2 in ND.
       intros Hin. apply ND. apply in_or_app. now left. }
@@ -204,7 +204,7 @@ Proof.
   rewrite (dict_set_fresh _ _ _ Fresh). unfold load_member_v0.
   rewrite (scan_fields c m _ [(u_tag_key c, JStr t)] [] vals []).
   - cbn [app scan_v0]. rewrite Hk.
-    assert (Fin : collect (m_fields m) vals = Some vals).
+    assert (Fin : collect (m_fields m) vals (m_defaults m) = Some vals).
     { rewrite <- Hm. apply collect_self. now rewrite Hm. }
     destruct Htol as [W|[R Ca]].
     + rewrite W, pstr_eqb_refl. cbn [andb]. now rewrite Fin.
@@ -238,7 +238,7 @@ Proof.
   rewrite !filter_app. cbn [filter fst]. rewrite Hk, pstr_eqb_refl. cbn [negb andb].
   rewrite (filter_none _ vals), (filter_all _ vals).
   - cbn [app]. rewrite app_nil_r, Bool.andb_false_r.
-    assert (Fin : collect (m_fields m) vals = Some vals).
+    assert (Fin : collect (m_fields m) vals (m_defaults m) = Some vals).
     { rewrite <- Hm. apply collect_self. now rewrite Hm. }
     rewrite Fin. now destruct (m_catchall m).
   - intros kv Hin. now apply (conforming_fields m vals Hc).
@@ -302,8 +302,8 @@ Proof.
   - intros [H|[H _]]; auto.
   - intros [H|H]; [now left|].
     destruct (pstr_eqb x a) eqn:E.
-    + apply pstr_eqb_eq in E. now left.
-    + right. split; [exact H|now rewrite E].
+    + apply pstr_eqb_eq in E. left. now symmetry.
+    + right. split; [exact H|reflexivity].
 Qed.
 
 Lemma dedup_nodup l : NoDup (dedup l).
@@ -393,14 +393,18 @@ Proof.
   intros HL. induction p as [|p IH|p IH|p IH|p IH|p IH]; intros v Sh; inversion Sh; subst; cbn [load_pos].
   - now apply HL.
   - reflexivity.
-  - specialize (IH v H1). destruct (dump_lv c v) eqn:E; try exact IH. now contradiction H2.
-  - cbn [dump_lv]. rewrite (mapM_ok (load_pos f p) (dump_lv c) l); [reflexivity|].
-    eapply Forall_impl; [|exact H1]. intros a Ha. now apply IH.
-  - cbn [dump_lv]. rewrite (mapM_items_ok (load_pos f p) (dump_lv c) items); [reflexivity|].
-    eapply Forall_impl; [|exact H1]. intros a Ha. now apply IH.
-  - cbn [dump_lv map]. now rewrite (IH v0 H1).
-  - cbn [dump_lv]. rewrite (mapM_ok (load_pos f p) (dump_lv c) l); [reflexivity|].
-    eapply Forall_impl; [|exact H1]. intros a Ha. now apply IH.
+  - match goal with Hs : shaped c L p v, Hn : dump_lv c v <> JNull |- _ =>
+      specialize (IH v Hs); destruct (dump_lv c v) eqn:E; try exact IH; now contradiction Hn end.
+  - match goal with Hf : Forall _ _ |- _ =>
+      cbn [dump_lv]; rewrite (mapM_ok (load_pos f p) (dump_lv c) l); [reflexivity|];
+      eapply Forall_impl; [|exact Hf]; intros a Ha; now apply IH end.
+  - match goal with Hf : Forall _ _ |- _ =>
+      cbn [dump_lv]; rewrite (mapM_items_ok (load_pos f p) (dump_lv c) items); [reflexivity|];
+      eapply Forall_impl; [|exact Hf]; intros a Ha; now apply IH end.
+  - match goal with Hs : shaped c L p ?w |- _ => cbn [dump_lv map]; now rewrite (IH w Hs) end.
+  - match goal with Hf : Forall _ _ |- _ =>
+      cbn [dump_lv]; rewrite (mapM_ok (load_pos f p) (dump_lv c) l); [reflexivity|];
+      eapply Forall_impl; [|exact Hf]; intros a Ha; now apply IH end.
 Qed.
 
 Lemma dispatch_v0 c pre args :
